@@ -22,6 +22,16 @@ type Payload struct {
 	MU   map[uint8]int64 // an unsigned-keyed map: an integer literal key cannot be converted to its key kind
 }
 
+// ByVal and NamedInt are injected by value (not through a pointer): a struct and a named
+// scalar, each with a value-receiver method that hands out the request's id.
+type ByVal struct{ Id int64 }
+
+func (b ByVal) Get() int64 { return b.Id }
+
+type NamedInt int64
+
+func (n NamedInt) V() int64 { return int64(n) }
+
 // poolReq is one in-flight pool request of a history.
 type poolReq struct {
 	id       int64
@@ -47,6 +57,8 @@ type poolHarness struct {
 	reaped   []*poolReq // requests that finished on their own, not yet checked
 	// extraData, if set, adds further entries to the data map of a request
 	extraData func(id, kind int64) map[string]interface{}
+	// byValue: every request also injects a struct and a named integer by value
+	byValue bool
 }
 
 // parkedCount is the number of outstanding requests with at least one rule parked.
@@ -94,6 +106,10 @@ func (h *poolHarness) start(id int64, kind int64, keys []string, call gx.Call) *
 		p := &Payload{Id: id, Kind: kind, M: map[string]int64{}, Sl: []int64{id, 0}, MU: map[uint8]int64{1: 1}}
 		r.payloads[k] = p
 		data[k] = p
+	}
+	if h.byValue {
+		data["bv"] = ByVal{Id: id}
+		data["nv"] = NamedInt(id)
 	}
 	if h.extraData != nil {
 		for k, v := range h.extraData(id, kind) {
